@@ -118,7 +118,8 @@ func runC12(c *Ctx, w *World, r *Report) {
 	r.Rule("R-SIB", "sibling congruence: the in-range result expression of SafeGet equals Get's, SafeGet1's equals Get1's (value numbers over parameters by position)")
 	r.Rule("R-EXTEND", "Builder.Extend: end = Offset+size or Offset+last+1 (when last >= size); Words grows until end <= 64*len(Words) before any bit is written; bit written = Offset + p for every listed p; Offset advances by exactly size")
 	r.Rule("R-SETBIT", "Builder.Set: grows until (pos>>6) < len(Words), ORs (value&1) << (pos&63) into Words[pos>>6], and moves Offset to pos+1 exactly when Offset <= pos")
-	r.Rule("R-REBASE", "OfMany: element p of sub-list i is rebased to base_i + p with base_0 = 0 and base_{i+1} = base_i + sizes[i]; the total is passed to Of as the size")
+	r.Rule("R-REBASE", "OfMany: element p of sub-list i is rebased to base_i + p with base_0 = 0 and base_{i+1} = base_i + sizes[i]")
+	r.Rule("R-COVER", "OfMany: the bit count handed to Of is, on every path, at least the sum of all sizes and larger than every rebased position (a position may be >= the size of its own sub-bitmap, so the rebased list need not be ascending and Of's own last+1 does not bound it): a loop-carried maximum that is only ever replaced by a value not smaller, and that after every stored position p is >= p+1. Otherwise Of allocates too few words and its fill loop indexes past them")
 
 	// ---------- Of
 	{
@@ -792,6 +793,8 @@ func runC12(c *Ctx, w *World, r *Report) {
 		bad := ""
 		var base *ssa.Phi
 		nst := 0
+		badCover := ""
+		var stored []storedPos
 		checkVal := func(val ssa.Value) {
 			nst++
 			L := fa.Lin(val)
@@ -831,10 +834,12 @@ func runC12(c *Ctx, w *World, r *Report) {
 					return
 				}
 				checkVal(x.Val)
+				stored = append(stored, newStoredPos(fa, x.Val, x, ia))
 			case *ssa.Call:
 				if vals := appendedValues(x); len(vals) > 0 && containerRole(x.Common().Args[0]) == "local" {
 					for _, v := range vals {
 						checkVal(v)
+						stored = append(stored, newStoredPos(fa, v, x, nil))
 					}
 				}
 			}
@@ -903,16 +908,188 @@ func runC12(c *Ctx, w *World, r *Report) {
 				}
 				found = true
 				args := sprintfArgs(call)
-				if len(args) != 1 || stripConv(args[0]) != ssa.Value(base) {
-					bad = "Of is not called with the final base as the requested size"
+				if len(args) != 1 {
+					bad = "Of is not called with a requested size"
+					return
 				}
+				badCover = ofManyCover(fa, call, args[0], base, stored)
 			})
 			if !found {
 				bad = "OfMany does not delegate to Of"
 			}
 		}
-		r.Check(bad == "", "R-REBASE", n, w.Pos(fn.Pos()), bad, "r[k] = base + subs[i][j]; base: 0, +sizes[i]; Of(r, base)")
+		r.Check(bad == "", "R-REBASE", n, w.Pos(fn.Pos()), bad, "r[k] = base + subs[i][j]; base: 0, +sizes[i]")
+		if bad == "" {
+			r.Check(badCover == "", "R-COVER", n, w.Pos(fn.Pos()), badCover, fmt.Sprintf("Of(r, n): n >= final base and n >= p+1 for each of the %d stored rebased positions p (running maximum, monotone)", len(stored)))
+		}
 	}
+}
+
+// storedPos: one rebased position written into the list OfMany hands to Of.
+type storedPos struct {
+	Val  ssa.Value
+	Blk  *ssa.BasicBlock
+	Reps []Lin // linear forms standing for the stored value: itself and loads of the element just stored
+}
+
+func newStoredPos(fa *FA, val ssa.Value, at ssa.Instruction, ia *ssa.IndexAddr) storedPos {
+	sp := storedPos{Val: val, Blk: at.Block(), Reps: []Lin{fa.Lin(val)}}
+	if ia == nil {
+		return sp
+	}
+	il := fa.Lin(ia.Index)
+	eachInstr(at.Parent(), func(ins ssa.Instruction) {
+		u, ok := ins.(*ssa.UnOp)
+		if !ok || u.Op != token.MUL {
+			return
+		}
+		ia2, ok := u.X.(*ssa.IndexAddr)
+		if !ok || fa.VN(ia2.X) != fa.VN(ia.X) || !fa.Lin(ia2.Index).Eq(il) {
+			return
+		}
+		if u.Block() == at.Block() {
+			after := false
+			for _, x := range u.Block().Instrs {
+				if x == at {
+					after = true
+				}
+				if x == ssa.Instruction(u) && !after {
+					return
+				}
+			}
+		} else if !at.Block().Dominates(u.Block()) {
+			return
+		}
+		L := fa.Lin(u)
+		for _, have := range sp.Reps {
+			if have.Eq(L) {
+				return
+			}
+		}
+		sp.Reps = append(sp.Reps, L)
+	})
+	return sp
+}
+
+// ofManyCover: the size A handed to Of bounds the final base and every stored rebased position (see R-COVER).
+func ofManyCover(fa *FA, call *ssa.Call, A ssa.Value, base *ssa.Phi, stored []storedPos) string {
+	A = stripConv(A)
+	if A == ssa.Value(base) {
+		return "the size handed to Of is the sum of the sizes alone; a position >= the size of its own sub-bitmap (allowed, Builder.Extend handles it) in a sub-bitmap that is not the last is rebased beyond every later position, so Of - which sizes its result from the last element only - allocates too few words and indexes past them"
+	}
+	leaves := fa.leavesOf1(A, call.Block(), 1)
+	var M *ssa.Phi
+	for _, lf := range leaves {
+		if p, ok := stripConv(lf.V).(*ssa.Phi); ok && isLoopHeaderPhi(p) && p != base {
+			if M != nil && M != p {
+				return "the size handed to Of merges two different loop-carried values"
+			}
+			M = p
+		}
+	}
+	if M == nil {
+		return "the size handed to Of is not a loop-carried maximum over the rebased positions"
+	}
+	bl, ml := fa.Lin(base), fa.Lin(M)
+	for _, lf := range leaves {
+		v := stripConv(lf.V)
+		L := fa.Lin(v)
+		if v != ssa.Value(base) {
+			if bd := fa.boundsFrom(lf.Conds, L.Sub(bl)); !(bd.HasLo && bd.Lo >= 0) {
+				return fmt.Sprintf("the size handed to Of may be smaller than the sum of the sizes: (size - total) in %s on one path", bd)
+			}
+		}
+		if v != ssa.Value(M) {
+			if bd := fa.boundsFrom(lf.Conds, L.Sub(ml)); !(bd.HasLo && bd.Lo >= 0) {
+				return fmt.Sprintf("the size handed to Of may be smaller than the running maximum of the positions: (size - maximum) in %s on one path", bd)
+			}
+		}
+	}
+	type keepLeaf struct {
+		L     Lin
+		Conds []Cond
+	}
+	type cand struct {
+		V    ssa.Value
+		H    *ssa.Phi
+		Pred *ssa.BasicBlock
+		Keep []keepLeaf
+	}
+	var cands []cand
+	H := map[*ssa.Phi]bool{M: true}
+	order := []*ssa.Phi{M}
+	for k := 0; k < len(order); k++ {
+		h := order[k]
+		hl := fa.Lin(h)
+		for i, e := range h.Edges {
+			pred := h.Block().Preds[i]
+			back := h.Block().Dominates(pred)
+			sc := selfCond(pred, h.Block())
+			var keeps []keepLeaf
+			var cs []cand
+			for _, lf := range fa.leavesOf1(e, pred, 1) {
+				conds := append(append([]Cond{}, lf.Conds...), sc...)
+				v := stripConv(lf.V)
+				if p, ok := v.(*ssa.Phi); ok && isLoopHeaderPhi(p) {
+					if !H[p] {
+						H[p] = true
+						order = append(order, p)
+					}
+					if back {
+						keeps = append(keeps, keepLeaf{fa.Lin(p), conds})
+					}
+					continue
+				}
+				if !back {
+					if h == M {
+						continue // the initial value of the outermost accumulator
+					}
+					return "the running maximum is re-initialised inside the loop (" + fa.Lin(v).String() + "): what earlier sub-bitmaps needed is forgotten"
+				}
+				if bd := fa.boundsFrom(conds, fa.Lin(v).Sub(hl)); !(bd.HasLo && bd.Lo >= 0) {
+					return fmt.Sprintf("%s replaces the running maximum on an edge where (new - old) is in %s; a maximum is only replaced by a value not smaller", fa.Lin(v), bd)
+				}
+				cs = append(cs, cand{V: v, H: h, Pred: pred})
+			}
+			for j := range cs {
+				cs[j].Keep = keeps
+			}
+			cands = append(cands, cs...)
+		}
+	}
+	for _, s := range stored {
+		why := "no update of the running maximum follows the store"
+		ok := false
+		for _, c := range cands {
+			if !c.H.Block().Dominates(s.Blk) || !s.Blk.Dominates(c.Pred) {
+				continue
+			}
+			for _, rep := range s.Reps {
+				d := fa.Lin(c.V).Sub(rep)
+				if !d.IsConst() {
+					continue
+				}
+				if d.K < 1 {
+					why = fmt.Sprintf("the maximum is advanced to position%+d, it has to be at least position+1 (a bit count)", d.K)
+					continue
+				}
+				good := true
+				for _, kl := range c.Keep {
+					if bd := fa.boundsFrom(kl.Conds, kl.L.Sub(rep)); !(bd.HasLo && bd.Lo >= 1) {
+						good = false
+						why = fmt.Sprintf("the maximum is kept on an edge where (maximum - position) is in %s; keeping it needs maximum >= position+1", bd)
+					}
+				}
+				if good {
+					ok = true
+				}
+			}
+		}
+		if !ok {
+			return "rebased position " + fa.Lin(s.Val).String() + " is not bounded by the size handed to Of: " + why
+		}
+	}
+	return ""
 }
 
 // maxEdgeCheck: phi p takes candidate src exactly on the edge other < src.
@@ -981,7 +1158,7 @@ func init() {
 		Explain: "Structural necessary conditions of bitmap construction/inspection (DESIGN.md 5/C12): unit consistency of all sizes and indexes (E4), rounding, same-position word/bit selection, Of's size = ceil(max(n,last+1,0)/64) and full fill, ToArray's exact scan range and appended value, Get/Get1 forms, SafeGet's exact two-sided guard and congruence with Get, Builder.Extend/Set growth, rebasing by Offset and Offset advance, OfMany's running base; E1: constructors return fresh memory and write no argument.",
 		NotDec:  []string{"that positions are ascending (a precondition) so that the last one is the maximum", "arithmetic overflow of int32 positions"},
 		Trusted: []string{"go/ssa construction"},
-		Quick:   []Config{cfgDefault}, Thorough: []Config{cfgDefault, cfg386},
+		Quick:   []Config{cfgDefault, cfg386}, Thorough: []Config{cfgDefault, cfg386},
 		Run: runC12,
 	})
 }
